@@ -1,0 +1,14 @@
+//go:build verif
+
+package web
+
+// Hooks for the verification harness in /verif. This file is only compiled
+// with `-tags verif`; it adds exported entry points and changes nothing else.
+
+import "time"
+
+// VerifStateExpiry reports when a state value issued by Authenticated expires.
+func VerifStateExpiry(h *OIDC, state string) (time.Time, bool) {
+	_, exp, found := h.stateStore.GetWithExpiration(state)
+	return exp, found
+}
